@@ -158,6 +158,17 @@ func derefPtr(t reflect.Type, v reflect.Value) (reflect.Type, reflect.Value, ref
 }
 
 /*
+isNilPointer returns a Boolean value indicative of whether x
+is a nil pointer of some type. Such a value satisfies any
+interface its element type satisfies, yet no value method can
+be called through it.
+*/
+func isNilPointer(x any) bool {
+	v := valOf(x)
+	return v.Kind() == reflect.Ptr && v.IsNil()
+}
+
+/*
 isNilOperator returns a Boolean value indicative of whether op
 is nil, or is a nil pointer of some type that qualifies for the
 Operator interface signature (calling a method upon which would
